@@ -51,6 +51,7 @@ def run(ctx: Ctx) -> None:
                 okb = has(f.node, f'''
 _MAX = len({frame}) - 1
 if any((_I < 0 or _I > _MAX for _I in a_range)):
+    ___
     raise __EXC
 ''') or has_expr(f.node, f'range(len({frame}))')
             ctx.add('C13.R1', f'{qn}:bound', okb, (f.file, n.lineno), f'positions are bounded by len({frame})' if okb else f'positions are not bounded by len({frame})', 'bound')
